@@ -764,6 +764,9 @@ class Interp(_Base):
         s2 = st.fork()
         self.tick()
         st.checked.add((f["year"].sym, f["month"].sym, f["day"].sym))
+        vsym = ("validdate", f["year"].sym, f["month"].sym, f["day"].sym)
+        st.conds.append((vsym, True))
+        s2.conds.append((vsym, False))
         return [(st, dt), (s2, self.raised(
             "calendar", "ValueError", node,
             "day/month/year assembled from independent sources without a validity check"))]
